@@ -36,6 +36,7 @@ OuterLayout(nm) ==
   CASE nm = "O1" -> << E("sni","pub"), E("sg","g"), E("ks","k"), E("sv","13"), E("ech","E") >>
     [] nm = "O2" -> << E("gr","r"), E("sni","pub"), E("sg","g"), E("x1","x"), E("ks","k"), E("sv","13"), E("ech","E"), E("alpn","ao") >>
     [] nm = "O3" -> << E("sni","pub"), E("sv","13"), E("ech","E") >>
+    [] nm = "O5" -> << E("sni","pub"), E("x1","x"), E("sg","g"), E("x1","x2"), E("ks","k"), E("sv","13"), E("ech","E") >>   \* a type carried twice: a reference takes the first occurrence after the previous one (Appendix B forward scan)
     [] nm = "O4" -> << E("ech","E"), E("sv","13"), E("ks","k"), E("psk","p"), E("sni","pub") >>
 
 \* expanded inner layouts (values: the inner's own; compressed ones take the outer's value)
